@@ -26,7 +26,6 @@ PROPS["C15"] = {
 }
 
 NOT_APPLICABLE = {
-    "C20": "text/JSON forms are implemented by reflection-driven encoding/json, fmt.Sscanf, strconv and math/big decimal conversion: library code with input-length loops that cannot be lowered to SMT within reach; the checksum clause is only probabilistically true (48-bit truncated hash), which an injective ideal hash cannot express",
 }
 
 MANIFEST_TEXT = {
@@ -407,6 +406,32 @@ PROPS["C19"] = {
 MANIFEST_TEXT["C19"] = {
     "text": "Bounded model checking of the rhp/v4 framing code only: real encodeTo/decodeFrom/maxLen/ReadRequest/ReadResponse/WriteResponse executed symbolically; length arithmetic at the protocol's batch limits, error-response delivery for all codes/descriptions within the bound, and the read bound on an arbitrary over-long stream.",
     "note": "Partial claim: transports (handshake, mux, AEAD) are outside reach. Trusted: engine; bytes.Buffer/bytes.Reader/io.LimitedReader run as real library code.",
+}
+
+PROPS["C20"] = {
+    "runs": [
+        {"pkg": "types", "harness": ["harness/c20/c20.go"], "run": "^VH_C20_", "params": {"quick": {}, "thorough": {}},
+         "flags": {"quick": ["-timeout", "5000", "-maxpaths", "100000"], "thorough": ["-timeout", "20000", "-maxpaths", "100000"]},
+         "must_reach": {"VH_C20_Hash256Text": ["roundtrip"], "VH_C20_Hash256Parse": ["accepted", "rejected", "wrong-length"], "VH_C20_IDsText": ["roundtrip"],
+                        "VH_C20_SignatureText": ["roundtrip"], "VH_C20_AddressText": ["roundtrip"], "VH_C20_AddressParse": ["accepted", "rejected", "wrong-length"],
+                        "VH_C20_PublicKeyParse": ["accepted", "rejected"], "VH_C20_ChainIndexParse": ["accepted", "rejected", "wrong-length"]},
+         "tv_harnesses": ["VH_C20_Hash256Text", "VH_C20_IDsText", "VH_C20_AddressText", "VH_C20_SignatureText", "VH_C20_Hash256Parse", "VH_C20_AddressParse"]},
+        {"pkg": "rhp/v4", "harness": ["harness/c20/c20_rhp4.go"], "run": "^VH_C20_", "params": {"quick": {}, "thorough": {}},
+         "flags": {"quick": ["-timeout", "5000", "-maxpaths", "100000"], "thorough": ["-timeout", "20000", "-maxpaths", "100000"]},
+         "must_reach": {"VH_C20_AccountText": ["roundtrip"], "VH_C20_AccountParse": ["accepted", "rejected", "wrong-length"]},
+         "tv_harnesses": ["VH_C20_AccountText", "VH_C20_AccountParse"]},
+    ],
+    "tv_runs": {"quick": 2, "thorough": 8},
+    "bounds": {"quick": "hex text forms only, all byte values: Hash256, BlockID, TransactionID, AttestationID, SiacoinOutputID, SiafundOutputID, FileContractID, PublicKey, Signature, Address, rhp/v4 Account: UnmarshalText(MarshalText(x)) == x and String == MarshalText for every value; for arbitrary text of every length 0..66 (Hash256), 0..79 (Address), 0..69 (Account with/without prefix, ChainIndex ID part), prefix 0..9 + 62..66 characters (PublicKey): no panic, the wrong length is rejected, accepted text is over the hex alphabet and re-prints as its lower-case form; an accepted address text spells the 6-byte hash prefix of exactly the 32 bytes it spells (checksum verified over the whole address); an accepted public key has exactly the prefix ed25519:",
+               "thorough": "same (the bound already contains every length up to one past the accepted one)"},
+    "outside": ["everything that goes through encoding/json, fmt.Sscanf/Sprintf, strconv or math/big: JSON forms of all types, Currency text, SpendPolicy string form, Specifier quoting, UnlockKey, ChainIndex height digits (fixed to one digit here), ProtocolVersion, HostSettings, apply/revert update JSON: reflection and decimal conversion cannot be lowered within reach",
+                "'an address string with any character altered is rejected' is true only up to 2^-48 (truncated hash); what is decided is that the parser compares all 6 checksum bytes with the hash of all 32 address bytes, so a corruption is accepted only on a 48-bit collision; case changes of hex digits are accepted as the same value",
+                "Account text without the ed25519: prefix is accepted (as the same value); other 32-byte ID types of rhp packages"],
+    "stubs": [], "assumptions": COMMON_ASSUME + IDEAL_CRYPTO,
+}
+MANIFEST_TEXT["C20"] = {
+    "text": "Bounded model checking of the hex-based text forms only: the real MarshalText/String/UnmarshalText/ParseAddress code including encoding/hex and bytes.Split is executed symbolically on arbitrary values and on arbitrary text of every length up to one past the accepted length; table lookups are encoded as range tests.",
+    "note": "Partial claim: JSON, decimal and policy text forms are outside reach (see outside_bounds). Trusted: engine, ideal hash for the address checksum. Found F9 (Account/ChainIndex text parsers panicked on over-long input).",
 }
 
 PROPS["C18"] = {
